@@ -125,6 +125,13 @@ func observeLevel(l slog.Level) lvlObs {
 		if err := x.UnmarshalText(b); err == nil {
 			o.TextRT = int(x)
 		}
+		// the bytes belong to the caller: wiping them must not show in what the level marshals to afterwards
+		for i := range b {
+			b[i] = '#'
+		}
+		if b2, err := l.MarshalText(); err != nil || string(b2) != o.Str {
+			o.TextRT = -7778
+		}
 	}
 	if b, err := json.Marshal(l); err == nil {
 		var x slog.Level = -7777
